@@ -72,6 +72,13 @@ int main_replay(){
     double vol = lin ? 6.0 : 4.0;
     if (!(std::abs(q - sw) < 1.E-9) || !(std::abs(q - vol) < 1.E-6)) { std::printf("conformal %d, linear %d: integrate() of the constant 1 gives %.12g, weights sum to %.12g, volume %.12g\n", conf, lin, q, sw, vol); bad++; }
   }
+  for (int loaded = 0; loaded < 2; loaded++) {      /* basis integrals of a grid with a linear transform, before and after values are loaded */
+    TasGrid::TasmanianSparseGrid c = TasGrid::makeLocalPolynomialGrid(2, 1, 2, 1, TasGrid::rule_localp), t = TasGrid::makeLocalPolynomialGrid(2, 1, 2, 1, TasGrid::rule_localp);
+    t.setDomainTransform({1.0, -2.0}, {4.0, 0.0});
+    if (loaded) { std::vector<double> v(c.getNumNeeded(), 1.0); c.loadNeededValues(v); t.loadNeededValues(v); }
+    std::vector<double> ic = c.integrateHierarchicalFunctions(), it = t.integrateHierarchicalFunctions();
+    for (size_t i = 0; i < ic.size(); i++) if (!(std::abs(it[i] - 1.5 * ic[i]) < 1.E-12)) { std::printf("%s grid: basis integral %zu is %.12g, canonical %.12g times the scale 1.5 expected\n", loaded ? "loaded" : "unloaded", i, it[i], ic[i]); bad++; break; }
+  }
   __CPROVER_assert(bad == 0, "C10 integrate() and the quadrature weights carry the scale of the linear transform with and without a conformal transform");
   return 0;
 }
@@ -108,7 +115,7 @@ def jobs(tier, seed, prop):
     Ri = X.Rules()
     it, iinfo = conformal.emit_integrate(Ri)
     t3 = [t_ for k, a, t_ in cf.sections if k == "text3"][0]
-    for w, fn in enumerate(("integrate", "getQuadratureWeights")):
+    for w, fn in enumerate(("integrate", "getQuadratureWeights", "integrateHierarchicalFunctions")):
         out.append(Job("conformal.scale." + fn, '#include "tsg_shim.h"\nint tsg_exc;\n#define TSG_WHICH %d\n#line 1 "/verif/contracts/conformal.c"\n' % w + t3 + it + cf.text(("harness",), ["h_integrate"]), "h_integrate", unwind=5, timeout=120,
                        functions=["%s:%d %s" % (f["file"], f["line"], f["name"]) for f in iinfo["functions"] if f["name"].endswith(fn)], info=iinfo, replay=replay(prop, REPLAY_INT),
                        bounded="outputs <= 2, points <= 3 (full unwinding)",
